@@ -325,73 +325,129 @@ TR = Tracer()
 
 
 # ---------------------------------------------------------------------------------------- analysis
-def canonical(events: list[dict], ambient: int = AMBIENT):
-    """Turns one process' event log into
-         ops     : the op trace in the vocabulary of Model/Rng.v
-                   ("seed", s) | ("draw", st, k) | ("new", cid, n, width) | ("pop", cid, row) | ("begin",) | ("end",)
-         samples : [{"lvl","idx","val","pos":[(st,sid,i)...],"rows":[(cid,row)...]}]
-         problems: list of strings (things the abstraction relies on that the log contradicts)
-    Position bookkeeping: sid/index per stream, as defined in the module docstring."""
-    ops, samples, problems = [], [], []
+class Canon:
+    """One process' event log in the vocabulary of Model/Rng.v.
+
+    events  : encoded events, exactly `map enc_ev` of the model
+                [0,s] seed | [1,py,sid,from,k] draw | [2,cid,n] new deque | [3,cid,row] pop | [4,lvl] begin | [5] end
+    samples : dicts {lvl, idx, val, pos:[(py,sid,i)...] in consumption order, rows:[(cid,row)...], sched:[(py,k)...], it}
+    problems: things the abstraction relies on that the log contradicts (strings)
+    hashes  : [(kind, hash-after)] for every event that changes a generator state (seed, draw with k>0)
+    chunks  : sample index ranges separated by the arrival of a fresh deque copy (worker logs)"""
+
+    def __init__(self):
+        self.events, self.samples, self.problems, self.hashes = [], [], [], []
+        self.rowpos: dict[tuple, list] = {}
+        self.chunk_starts: list[int] = []
+        self.seeds: list[int] = []
+
+
+def canonical(events: list[dict], ambient: int = AMBIENT, rowpos: dict | None = None) -> Canon:
+    c = Canon()
+    if rowpos:
+        c.rowpos.update(rowpos)
     sid = {NP: ambient, PY: ambient}
     idx = {NP: 0, PY: 0}
     cur = None
     pending_seed = None
-    rowpos: dict[tuple, list] = {}      # (cid,row) -> positions, filled at "new" from the draws that precede it
-    recent: list[tuple] = []            # (positions, values) of draws made outside samples since the last "new"x2
+    pre: list[dict] = []          # draws made outside samples and not yet attributed to a deque
+    claimed_normal = None
+    last_arrive_sample = -1
+    task_it = None
     for ev in events:
         e = ev["e"]
         if e == "seed":
             if ev["s"] is None:
-                problems.append("seed(None) call")
+                c.problems.append("seed(None) call")
             if ev["st"] == NP:
                 pending_seed = ev["s"]
                 sid[NP], idx[NP] = ev["s"], 0
+                c.hashes.append(("np", ev["ha"], "seed"))
             else:
                 sid[PY], idx[PY] = ev["s"], 0
+                c.hashes.append(("py", ev["ha"], "seed"))
                 if pending_seed is None or pending_seed != ev["s"]:
-                    problems.append(f"random.seed({ev['s']}) not paired with np.random.seed of the same value")
-                    ops.append(("seed_py", ev["s"]))
+                    c.problems.append(f"random.seed({ev['s']}) not paired with np.random.seed of the same value")
+                    c.events.append([7, ev["s"]])
                 else:
-                    ops.append(("seed", ev["s"]))
+                    c.events.append([0, ev["s"]])
+                    c.seeds.append(ev["s"])
                 pending_seed = None
-            recent = []
         elif e == "draw":
             st, k = ev["st"], ev["k"]
             pos = [(st, sid[st], idx[st] + j) for j in range(k)]
+            c.events.append([1, st, sid[st], idx[st], k])
             idx[st] += k
-            if ev["hb"] == ev["ha"] and k > 0:
-                problems.append(f"draw {ev['op']} of {k} variates left the generator state unchanged")
-            ops.append(("draw", st, k))
+            if k > 0:
+                if ev["hb"] == ev["ha"]:
+                    c.problems.append(f"draw {ev['op']} of {k} variates left the generator state unchanged")
+                c.hashes.append(("np" if st == NP else "py", ev["ha"], "draw"))
             if cur is not None:
                 cur["pos"].extend(pos)
+                cur["sched"].append((st, k))
             else:
-                recent.append((pos, ev.get("vals"), ev["op"]))
+                pre.append({"op": ev["op"], "pos": pos, "vals": ev.get("vals"), "shape": ev.get("shape")})
         elif e == "new":
-            ops.append(("new", ev["cid"], ev["n"], ev["width"]))
-            rowpos[("rows", ev["cid"])] = ev.get("rows")
-            rowpos[("recent", ev["cid"])] = list(recent)
+            c.events.append([2, ev["cid"], ev["n"]])
+            n, rows = ev["n"], ev.get("rows")
+            if n > 0:
+                w = ev["width"]
+                # Brownian deque: rows of the last normal block; Poisson deque: the singles before it, column-major
+                if pre and pre[-1]["op"] == "normal" and len(pre[-1]["pos"]) == n * w and claimed_normal is None:
+                    blk = pre[-1]
+                    claimed_normal = len(pre) - 1
+                    for i in range(n):
+                        c.rowpos[(ev["cid"], i)] = blk["pos"][i * w:(i + 1) * w]
+                        if rows is not None and blk["vals"] is not None and rows[i] != blk["vals"][i * w:(i + 1) * w]:
+                            c.problems.append(f"Brownian row {i} of deque {ev['cid']} is not the {i}-th block of the normal draw")
+                elif claimed_normal is not None and claimed_normal >= n * w and \
+                        all(d["op"] == "poisson" and len(d["pos"]) == 1 for d in pre[claimed_normal - n * w:claimed_normal]):
+                    singles = pre[claimed_normal - n * w:claimed_normal]
+                    for i in range(n):
+                        c.rowpos[(ev["cid"], i)] = [singles[k * n + i]["pos"][0] for k in range(w)]
+                        if rows is not None and rows[i] != [singles[k * n + i]["vals"][0] for k in range(w)]:
+                            c.problems.append(f"Poisson row {i} of deque {ev['cid']} is not column {i} of the Poisson draws")
+                    pre, claimed_normal = [], None
+                else:
+                    c.problems.append(f"deque {ev['cid']} ({n} rows of width {w}) cannot be matched with the draws that precede it")
+            else:
+                if claimed_normal is None and pre and pre[-1]["op"] == "normal":
+                    claimed_normal = len(pre) - 1
+                else:
+                    pre, claimed_normal = [], None
         elif e == "pop":
-            ops.append(("pop", ev["cid"], ev["row"]))
+            c.events.append([3, ev["cid"], ev["row"]])
             if cur is not None:
                 cur["rows"].append((ev["cid"], ev["row"]))
+                rp = c.rowpos.get((ev["cid"], ev["row"]))
+                if rp is None:
+                    c.problems.append(f"row {(ev['cid'], ev['row'])} popped but never seen created")
+                else:
+                    cur["pos"].extend(rp)
             else:
-                problems.append("pop outside a sample")
+                c.problems.append("pop outside a sample")
         elif e == "begin":
-            ops.append(("begin",))
-            cur = {"pos": [], "rows": [], "lvl": None, "idx": None, "val": None, "entry": ev.get("entry")}
+            cur = {"pos": [], "rows": [], "sched": [], "lvl": None, "idx": None, "val": None, "entry": ev.get("entry"),
+                   "it": task_it, "evpos": len(c.events)}
+            c.events.append([4, None])
+            task_it = None
         elif e == "end":
-            ops.append(("end",))
-            samples.append(cur)
+            c.events.append([5])
+            c.samples.append(cur)
             cur = None
         elif e == "stat":
-            if samples and samples[-1]["idx"] is None:
-                samples[-1].update(lvl=ev["lvl"], idx=ev["idx"], val=ev["val"])
+            if c.samples and c.samples[-1]["idx"] is None:
+                sm = c.samples[-1]
+                sm.update(lvl=ev["lvl"], idx=ev["idx"], val=ev["val"])
+                c.events[sm["evpos"]][1] = ev["lvl"]
         elif e == "task":
-            ops.append(("task", ev["it"]))
-        elif e in ("copy", "arrive", "pre", "pool", "default_rng"):
-            if e == "arrive":
-                ops.append(("arrive", ev["cid"], ev["n"]))
+            task_it = ev["it"]
+        elif e == "arrive":
+            if last_arrive_sample != len(c.samples):
+                c.chunk_starts.append(len(c.samples))
+                last_arrive_sample = len(c.samples)
     if pending_seed is not None:
-        problems.append("np.random.seed not followed by random.seed")
-    return ops, samples, problems, rowpos
+        c.problems.append("np.random.seed not followed by random.seed")
+    if cur is not None:
+        c.problems.append("sample begun and never ended")
+    return c
